@@ -57,6 +57,18 @@ Theorem verify_follows_the_clock : forall c f t1 t2,
 Proof. exact Proofs.Tls.verify_follows_the_clock. Qed.
 Print Assumptions verify_follows_the_clock.
 
+(* the configuration layer: pinnedservercert / pinnedclientcert entries become pins of sha256 or
+   sha512 size only, so a verifier built from a configuration never stops at the length error *)
+Theorem configured_pins_legal : forall l pins,
+  decode_fingerprints l = Some pins -> forall p, In p pins -> legal_len (blen p) = true.
+Proof. exact configured_pins_legal_proof. Qed.
+Print Assumptions configured_pins_legal.
+
+Theorem configured_pins_never_length_error : forall l c f now,
+  decode_fingerprints l = Some (c_pins c) -> verify c f now <> Refuse R_PINLEN.
+Proof. exact configured_pins_never_length_error_proof. Qed.
+Print Assumptions configured_pins_never_length_error.
+
 (* GetClientTLSConfig: an InsecureSkipVerify profile gets nothing installed; otherwise the verifier
    is installed, and crypto/tls' own host-name verification is switched off only in receptor mode *)
 Theorem client_config_installs_verifier : forall p expected htype,
